@@ -6,13 +6,22 @@ LISTLIKE = (list, tuple, set, frozenset)
 SCALARS = (str, int, float, bool, type(None), complex, bytes)
 
 
+def tname_of(t):
+    """The name of a type, read from type itself (a metaclass can make .__name__ do anything)."""
+    try:
+        n = type.__dict__["__name__"].__get__(t)
+    except BaseException:  # noqa
+        n = None
+    return n if type(n) is str else "?"
+
+
 class RefNode:
     """Reference reading of one object."""
     __slots__ = ("obj", "tname", "text", "text_err", "kind", "length", "children", "serial", "depth")
 
     def __init__(self, obj):
         self.obj = obj
-        self.tname = type(obj).__name__
+        self.tname = tname_of(type(obj))
         self.children = None   # list of (names:set[str], original_name|None, RefNode) ; None = not expanded
         self.kind = kind_of(obj)
         self.length = None
@@ -23,6 +32,8 @@ class RefNode:
                 self.length = len(obj)
             else:
                 self.text = str(obj)
+                if type(self.text) is not str:       # a __str__ may give an instance of a subclass of str
+                    self.text = str.__str__(self.text)
         except BaseException as e:  # noqa - faulting host objects
             self.text_err = e
 
@@ -34,11 +45,11 @@ def kind_of(obj):
     if t in LISTLIKE:
         return "seq" if t in (list, tuple) else "set"
     # type-based tests only: isinstance() may consult obj.__class__, which a host object can make raise
-    if issubclass(t, SCALARS) or issubclass(t, type) or t.__name__ in ("module", "traceback"):
-        if t not in SCALARS and not issubclass(t, type) and t.__name__ not in ("module", "traceback") and _inst_dict(obj):
+    if issubclass(t, SCALARS) or issubclass(t, type) or tname_of(t) in ("module", "traceback"):
+        if t not in SCALARS and not issubclass(t, type) and tname_of(t) not in ("module", "traceback") and _inst_dict(obj):
             return "obj"     # an instance of a scalar subclass that carries attributes of its own (enum members)
         return "leaf"
-    n = t.__name__
+    n = tname_of(t)
     if "iterator" in n or "generator" in n or n in ("range_iterator", "enumerate", "zip", "map", "filter",
                                                     "coroutine", "async_generator"):
         return "iter"
@@ -134,13 +145,11 @@ def _inst_dict(o):
 
 
 def _demangle(cls, name):
+    # only private names are mangled (__x -> _Class__x); "_Items" on class Item is simply "_Items"
     for c in getattr(cls, "__mro__", (cls,)):
-        p = "_" + c.__name__.lstrip("_")
+        p = "_" + tname_of(c).lstrip("_")
         if name.startswith(p + "__") and not name.endswith("__"):
             return name[len(p):]
-    p = "_" + cls.__name__
-    if name.startswith(p):
-        return name[len(p):]
     return name
 
 
@@ -154,7 +163,7 @@ def read_stack(frame):
         try:
             s = f.f_locals.get("self", None)
             if s is not None:
-                cls = type(s).__name__
+                cls = tname_of(type(s))
         except BaseException:  # noqa
             cls = None
         out.append((f.f_code.co_filename, f.f_code.co_name, f.f_lineno, cls))
